@@ -26,6 +26,10 @@ pub fn apply_fault(sys: &mut Sys, op: &Op) -> R<Option<usize>> {
             fault_clone(sys, w as usize, k as u32)?;
             Ok(Some(w as usize))
         }
+        Op::FaultCloneFrom { w, k } => {
+            fault_clone_from(sys, w as usize, k as u32)?;
+            Ok(Some(w as usize))
+        }
         Op::FaultDestroyDrop { w, a, i, k } => {
             with_arch!(a as usize, A => fault_destroy_drop::<A>(sys, w as usize, i as usize, k as u32))?;
             Ok(Some(w as usize))
@@ -217,6 +221,61 @@ fn fault_clone(sys: &mut Sys, w: usize, k: u32) -> R {
     }
     for a in sys.sc.archs.clone() {
         with_arch!(a as usize, A => check_no_guard_leaked::<A>(sys, w, "a panic inside clone()"))?;
+    }
+    Ok(())
+}
+
+/// `target.clone_from(&source)` with the k-th tracked `Clone::clone` panicking. The target is a scratch world of the same shape
+/// and population (an unfaulted clone taken first), so an implementation that reuses the target's storage has something to
+/// release and something to overwrite. Afterwards: the source is untouched, the target is still a world that can be dropped -
+/// nothing dropped twice, nothing of the source dropped; the only tolerated loss is the known partial-clone leak.
+fn fault_clone_from(sys: &mut Sys, w: usize, k: u32) -> R {
+    let d0 = sys.dumps(w);
+    let src = sys.worlds[w].as_ref().unwrap();
+    let mut target = match catch_unwind(AssertUnwindSafe(|| src.clone())) {
+        Ok(t) => t,
+        Err(p) => return vio!("C13,C10", "unexpected-panic:clone", "an unfaulted clone() panicked: {}", panic_msg(&p)),
+    };
+    let snap0 = reg_snapshot();
+    reg_arm(FaultPlan { clone_at: Some(k), drop_at: None });
+    let res = catch_unwind(AssertUnwindSafe(|| target.clone_from(src)));
+    reg_disarm();
+    match res {
+        Ok(()) => {
+            drop(target);
+            let (t, _) = owned(sys, w);
+            return vio!("C04", "clone-count", "clone_from performed fewer than {} tracked Clone::clone calls although the source owns {} tracked values", k, t);
+        }
+        Err(p) => {
+            let msg = panic_msg(&p);
+            ensure!(msg.contains(FAULT_MSG_CLONE), "C10", "other-panic-during-clone", "clone_from panicked with '{}'", msg);
+        }
+    }
+    sys.c.faults_fired += 1;
+    ensure!(d0 == sys.dumps(w), "C10", "clone-panic-mutated-source", "a panic inside clone_from changed the source world");
+    // the target must still be a droppable world
+    let dropped = catch_unwind(AssertUnwindSafe(|| drop(target)));
+    ensure!(dropped.is_ok(), "C10", "target-undroppable-after-clone-from-panic", "dropping the target of a clone_from that panicked panicked itself");
+    let snap1 = reg_snapshot();
+    ensure!(snap1.double_drops == 0, "C10", "double-drop", "a panic inside clone_from led to a double drop (when the target was dropped afterwards)");
+    let (t, z) = owned(sys, w);
+    // snap0 counted the target's own values (one per value of the source); they are gone now
+    let leaked = snap1.live as i64 - (snap0.live as i64 - t);
+    let leaked_z = snap1.z_live - (snap0.z_live - z);
+    ensure!(leaked >= 0 && leaked_z >= 0, "C10", "dropped-while-alive", "a panic inside clone_from (or dropping its target) dropped values of the source world: balance {} tracked, {} zero-sized", leaked, leaked_z);
+    if leaked > 0 || leaked_z > 0 {
+        let sig = "leak:clone-panic";
+        if sys.is_known("C10", sig) {
+            sys.note_known("C10", sig);
+            sys.c.leak_known += 1;
+        } else {
+            return vio!("C10", sig, "a panic in the {}-th Clone::clone during clone_from leaked {} tracked and {} zero-sized component values (never dropped)", k, leaked, leaked_z);
+        }
+        sys.leaked_tracked += leaked;
+        sys.leaked_z += leaked_z;
+    }
+    for a in sys.sc.archs.clone() {
+        with_arch!(a as usize, A => check_no_guard_leaked::<A>(sys, w, "a panic inside clone_from"))?;
     }
     Ok(())
 }
